@@ -15,6 +15,7 @@ RULE = ("G-sim traces (1-3 host threads, with/without an autograd thread and '##
         "(shifted) times; the autograd clause uses ground truth from raw events. Non-trivial: >= 1 host event with >= 2 device "
         "descendants at depth >= 2 and a non-zero epoch offset. Distinct = hash of the files.")
 ASSUMPTIONS = ["well-formed, K1-free traces (hv/wf.py)", "attributes are judged relative to the reported parent column (C03 judges the parents)"]
+FLOAT_KEYS = ["files"]          # fractional-time-unit workload class (hv/shard.py)
 PLAN = {"quick": {"shards": 16, "cases": 640, "timeout": 900}, "thorough": {"shards": 16, "cases": 5000, "timeout": 3400}}
 FLOORS = {"quick": {"distinct_nontrivial": 100, "host_rows_judged": 8000, "device_rows_judged": 2500, "autograd_cases": 30,
                     "bwd_ops_reparented": 40, "bwd_ops_left_alone": 40, "tiny_timestamp_traces": 40},
